@@ -176,6 +176,11 @@ func (s *Spec) EmitWire(r *rand.Rand, extraArg bool) map[string]string {
 			res = "(" + res + ", error)"
 			ret += ", nil"
 		}
+		if r.Intn(3) == 0 {
+			// the other documented injector form: no dummy return values
+			fmt.Fprintf(&inj, "func %s(%s) %s {\n\tpanic(wire.Build(\n\t\t%s,\n\t))\n}\n\n", in.Name, strings.Join(ps, ", "), res, strings.Join(top, ",\n\t\t"))
+			continue
+		}
 		fmt.Fprintf(&inj, "func %s(%s) %s {\n\twire.Build(\n\t\t%s,\n\t)\n\t%s\n}\n\n", in.Name, strings.Join(ps, ", "), res, strings.Join(top, ",\n\t\t"), ret)
 	}
 	hdr := func(body string, tag bool) string {
